@@ -7,6 +7,7 @@ import Ivg.Gen.Tie.Mids
 import Ivg.Gen.Tie.MiscFields
 import Ivg.Gen.Tie.Code.DecNumbers
 import Ivg.Gen.Tie.Code.Decoder8
+import Ivg.Gen.Tie.Code.Decoder10
 import Ivg.Obligations
 /-!
 # C13 — metadata: what Reset receives, what is rejected, and metadata-only decoding
@@ -342,4 +343,6 @@ end Ivg.Props.C13
   Ivg.Gen.Tie.decode_Decode_code_tie,
   Ivg.Gen.Tie.decodeViewBox_code_tie,
   Ivg.Gen.Tie.errText_message,
-  Ivg.Gen.Tie.decodeError_Error_code_tie]
+  Ivg.Gen.Tie.decodeError_Error_code_tie,
+  -- … and with options (the viewBox is untouched by options)
+  Ivg.Gen.Tie.decode_opts_code_tie]
